@@ -2,6 +2,8 @@
 
 use crate::eng_codec::{ReadEngine, WriteEngine};
 use crate::eng_hpack::{self, DecEngine, EncEngine, SplitEngine};
+use crate::eng_pair::PairEngine;
+use crate::sim_pair::Focus;
 use crate::runner::{self, drive, finish, Ctx, Engine, Report, RunStats, Tier};
 use serde_json::{json, Value};
 use std::collections::BTreeMap;
@@ -94,6 +96,13 @@ pub fn run_check(id: &str, tier: Tier) -> i32 {
             assumptions.push("reference decoder implements RFC 7541; h2 rejecting an RFC-valid block (HTTP field validation, its documented 5-octet integer limit) is allowed by the property".into());
             assumptions.push("at most one local table-size change per history (the public API only sets it at the handshake)".into());
         }
+        "C01" | "C02" | "C04" | "C06" => {
+            parts.push(run_engine(&PairEngine { focus: Focus::Coop }, &ctx, scale(tier, 6_000, 300_000)));
+            if parts.iter().all(|p| p.failure.is_none()) && id != "C06" {
+                parts.push(run_engine(&PairEngine { focus: Focus::Resets }, &ctx, scale(tier, 4_000, 200_000)));
+            }
+            assumptions.push("the simulator's transport and executor honour the AsyncRead/AsyncWrite/Future contracts; the reference frame parser and HPACK decoder are correct".into());
+        }
         "C12" => {
             parts.push(run_engine(&WriteEngine, &ctx, scale(tier, 40_000, 1_000_000)));
             if parts.iter().all(|p| p.failure.is_none()) {
@@ -116,6 +125,11 @@ pub fn replay(path: &str) -> i32 {
     let engine = v["engine"].as_str().unwrap_or("");
     let property = v["property"].as_str().unwrap_or("").to_string();
     let case = &v["case"];
+    if std::env::var("VERIF_DUMP").is_ok() && engine.starts_with("pair-") {
+        if let Ok(c) = serde_json::from_value::<crate::sim_pair::PairCase>(case.clone()) {
+            crate::eng_pair::dump_pair(&c);
+        }
+    }
     let out = match engine {
         "hpack-dec" => runner::replay_case(&DecEngine, case),
         "hpack-split" => {
@@ -127,6 +141,9 @@ pub fn replay(path: &str) -> i32 {
         "hpack-enc" => runner::replay_case(&EncEngine { big: false }, case),
         "hpack-enc-big" => runner::replay_case(&EncEngine { big: true }, case),
         "codec-write" => runner::replay_case(&WriteEngine, case),
+        "pair-coop" => runner::replay_case(&PairEngine { focus: Focus::Coop }, case),
+        "pair-resets" => runner::replay_case(&PairEngine { focus: Focus::Resets }, case),
+        "pair-faults" => runner::replay_case(&PairEngine { focus: Focus::Faults }, case),
         "codec-read" => runner::replay_case(&ReadEngine, case),
         other => {
             eprintln!("unknown engine {:?}", other);
